@@ -237,6 +237,13 @@ let provision_buf (w : world) (b : sbuf) : string =
     (match e with MOverflow b | MTooSmall b -> w.owned <- b :: w.owned | _ -> ());
     "err " ^ memerr_str e
 
+(* GSE_HL=1: run the closed forms (proofs/*Spec.v) instead of the statement-by-statement model; used to validate
+   a closed form against the implementation before/after proving it equal to the model *)
+let use_hl = (Sys.getenv_opt "GSE_HL" = Some "1")
+let encap_m crc s pdu fid pt lab buf = if use_hl then Ret (encap_hl crc s pdu fid pt lab buf) else encap crc s pdu fid pt lab buf
+let encap_frag_m pdu ctx buf = if use_hl then Ret (encap_frag_hl pdu ctx buf) else encap_frag pdu ctx buf
+let decap_m crc mgr s buf = if use_hl then Ret (decap_hl crc mgr s buf) else decap crc mgr s buf
+
 let ios = int_of_string
 let nos s = n_of_int (int_of_string s)
 
@@ -254,7 +261,7 @@ let apply (w : world) (line : string) : string =
     let before = gen_bytes (ios t.(5)) (ios t.(6)) in
     let lab = label_tok t.(4) in
     if op = "ENCAP" then
-      enc_result w (encap default_crc w.enc pdu (nos t.(2)) (nos t.(3)) lab (nbytes before)) before pdu true
+      enc_result w (encap_m default_crc w.enc pdu (nos t.(2)) (nos t.(3)) lab (nbytes before)) before pdu true
     else begin
       match (try Ok (exts_tok t.(7)) with ExtNewErr -> Error "err extnew" | ModelPanic -> Error "PANIC extnew") with
       | Error s -> s
@@ -265,7 +272,7 @@ let apply (w : world) (line : string) : string =
     let pdu = nbytes (bytes_tok t.(1)) in
     let ctx = { cf_id = nos t.(2); cf_crc = nos t.(3); cf_len = nos t.(4) } in
     let before = gen_bytes (ios t.(5)) (ios t.(6)) in
-    let r = match encap_frag pdu ctx (nbytes before) with Panic -> Panic | Ret (b, res) -> Ret ((w.enc, b), res) in
+    let r = match encap_frag_m pdu ctx (nbytes before) with Panic -> Panic | Ret (b, res) -> Ret ((w.enc, b), res) in
     enc_result w r before pdu false
   | "EFRAGC" ->
     (match w.last_ctx with
@@ -274,7 +281,7 @@ let apply (w : world) (line : string) : string =
        let pdu = w.last_pdu in
        let before = gen_bytes (ios t.(1)) (ios t.(2)) in
        let keep_ctx = w.last_ctx and keep_pkt = w.last_pkt in
-       let r = match encap_frag pdu ctx (nbytes before) with Panic -> Panic | Ret (b, res) -> Ret ((w.enc, b), res) in
+       let r = match encap_frag_m pdu ctx (nbytes before) with Panic -> Panic | Ret (b, res) -> Ret ((w.enc, b), res) in
        let s = enc_result w r before pdu false in
        if String.length s >= 3 && (String.sub s 0 3 = "err" || String.sub s 0 3 = "PAN") then begin
          w.last_ctx <- keep_ctx; w.last_pkt <- keep_pkt end;
@@ -319,7 +326,7 @@ let apply (w : world) (line : string) : string =
   | "DECAP" | "DECAPL" | "DECAPN" ->
     if op = "DECAPN" then w.fresh <- false;
     let bytes = if op = "DECAP" then bytes_tok t.(1) else w.last_pkt @ bytes_tok t.(1) in
-    dec_result w (decap default_crc w.mgr (getdec w) (nbytes bytes))
+    dec_result w (decap_m default_crc w.mgr (getdec w) (nbytes bytes))
   | "PEEK" | "PEEKL" ->
     let bytes = if op = "PEEK" then bytes_tok t.(1) else w.last_pkt @ bytes_tok t.(1) in
     (match peek (nbytes bytes) with
